@@ -204,6 +204,16 @@ PROPS = {
 }
 
 # Verus item -> complete Kani harness that decides the same obligation bit-precisely (see bin/check)
+# Verus item -> COMPLETE bit-precise Kani harness that decides the same function for all inputs.  A Verus obligation of
+# such an item that fails while the harness passes is proof-shape drift (the code changed shape, not meaning): exit 2.
 SHADOWS = {
     "range.RangeConstraintBuilder::generate_constraint_commitments.slice_digits": "range_digits_exact",
+    "states.MerchantBalance::apply": "balance_apply_exact",
+    "states.CustomerBalance::apply": "balance_apply_exact",
+    "states.MerchantBalance::try_new": "balance_try_new_exact",
+    "states.CustomerBalance::try_new": "balance_try_new_exact",
+    "za.Balance::try_new": "balance_try_new_exact",
+    "states.MerchantBalance::try_add": "balance_try_add_exact",
+    "za.PaymentAmount::pay_merchant": "amount_constructors_exact",
+    "za.PaymentAmount::pay_customer": "amount_constructors_exact",
 }
